@@ -30,9 +30,30 @@ def snapshot(model):
     return cells, names
 
 
+def custom_namespace(L):
+    """a function table that differs from the default one in SUM and COUNTA (both answer 1000 more): what an evaluator
+    computes with it is no business of the specification, but it must not depend on who evaluated what before"""
+    import functools
+    ns = L.xl.FUNCTIONS.copy()
+    for name in ('SUM', 'COUNTA'):
+        real = ns[name]
+
+        def make(real):
+            @functools.wraps(real)
+            def shifted(*a, **kw):
+                r = real(*a, **kw)
+                try:
+                    return r + 1000
+                except Exception:
+                    return r
+            return shifted
+        ns[name] = make(real)
+    return ns
+
+
 class Worker:
-    def __init__(self, work, shapes):
-        self.work, self.shapes = work, shapes
+    def __init__(self, work, shapes, custom=False):
+        self.work, self.shapes, self.custom = work, shapes, custom
 
     def __call__(self, blocks):
         L = xl.lib()
@@ -48,7 +69,7 @@ class Worker:
             names = [(n, W.name_ref_text(a)) for n, a in W.name_items(sdef['names'])]
             model = W.build_model(pycells, names)
             before = snapshot(model)
-            evs = [L.Evaluator(model), L.Evaluator(model)]
+            evs = [L.Evaluator(model), L.Evaluator(model, namespace=custom_namespace(L)) if self.custom else L.Evaluator(model)]
             inputs = {}
             for i, h in enumerate(hist):
                 a = W.addr(h['x'])
@@ -68,14 +89,16 @@ class Worker:
                     obs = xl.to_abs(e)
                 # the response is a function of the content alone: recorded per (shape, inputs, cell) and compared across ALL
                 # schedules, also where the specification leaves the value itself open
-                key = json.dumps([shape, sorted(inputs.items()), a])
+                key = json.dumps([shape, sorted(inputs.items()), a] + ([h['e']] if self.custom else []))
                 if obs.get('t') == 'exc':
                     obs_key = json.dumps({'t': 'exc', 'cls': obs.get('cls')})
                 else:
                     obs_key = json.dumps(obs, sort_keys=True)
                 out['responses'].setdefault(key, {}).setdefault(obs_key, [[h2['op'], h2.get('e'), W.addr(h2['x'])] for h2 in hist[:i + 1]])
                 bad = None
-                if agrees(obs, h['res']) is False:
+                if self.custom and h['e'] == 2:
+                    pass          # the evaluator with its own function table: only the relation across schedules applies
+                elif agrees(obs, h['res']) is False:
                     bad = ('evaluate-result', h['res'], obs)
                 else:
                     after = snapshot(model)
@@ -87,6 +110,27 @@ class Worker:
                                        'exp': bad[1], 'obs': bad[2], 'clause': bad[0],
                                        'features': {'shape': shape, 'clause': bad[0], 'step': i}})
                     break
+            else:
+                # evaluate() asked for something that is not a cell of the model: a defined name in another letter case, an
+                # unknown name, a cell no one stored, a sheet no one has - the model must be left exactly as it was
+                probes = [n for n, _ in names for n in (n.upper(), n.lower(), n.swapcase())] + ['NoSuchName', 'S1!ZZ99', 'NoSuchSheet!A1']
+                for pr in probes:
+                    if pr in model.defined_names or pr in model.cells:
+                        continue
+                    try:
+                        evs[0].evaluate(pr)
+                    except BaseException as e:      # noqa
+                        if isinstance(e, (KeyboardInterrupt, SystemExit)):
+                            raise
+                    after = snapshot(model)
+                    if after != before:
+                        diff = [k for k in set(after[0]) | set(before[0]) if after[0].get(k) != before[0].get(k)]
+                        out['dis'].append({'case': {'shape': shape, 'schedule': [[h2['op'], h2.get('e'), W.addr(h2['x'])] for h2 in hist], 'then_evaluate': pr},
+                                           'exp': 'unchanged constants/formulas/names/cells',
+                                           'obs': {'cells_changed': diff[:5], 'names_added': sorted(set(after[1]) - set(before[1]))[:5]},
+                                           'clause': 'model-changed-by-evaluate',
+                                           'features': {'shape': shape, 'clause': 'model-changed-by-evaluate', 'probe': 'not-a-cell'}})
+                        break
             if len(out['samples']) < 2:
                 out['samples'].append({'shape': shape, 'schedule': [[h2['op'], h2.get('e'), W.addr(h2['x'])] for h2 in hist],
                                        'responses': [h2['res'] for h2 in hist]})
@@ -185,6 +229,19 @@ def run(run):
     blocks += [b for b in pool.dump_blocks(r3.dump) if b.count('op |->') >= 3]
     shapes_n = {}
     responses = {}
+    # the same schedules once more with evaluator 2 holding its OWN function table (SUM / COUNTA replaced): shapes that use them
+    cblocks = [b for b in blocks if any(f'shape = "{s_}"' in b for s_ in ('range', 'overlap', 'named'))]
+    nres_custom = 0
+    for res in pool.pmap(Worker(run.work, shapes, custom=True), cblocks):
+        nres_custom += res['steps']
+        for key, variants in res['responses'].items():
+            tgt = responses.setdefault('custom:' + key, {})
+            for ok_, sched in variants.items():
+                tgt.setdefault(ok_, sched)
+        for d in res['dis']:
+            run.disagree('schedule', dict(d['case'], evaluator_2_has_its_own_function_table=True), d['exp'], d['obs'], d['features'], clause=d['clause'])
+    run.evaluations += nres_custom
+    run.notes['custom_namespace_evaluations'] = nres_custom
     for res in pool.pmap(Worker(run.work, shapes), blocks):
         for key, variants in res['responses'].items():
             tgt = responses.setdefault(key, {})
@@ -203,7 +260,7 @@ def run(run):
     run.notes['contents_compared_across_schedules'] = len(responses)
     for key, variants in responses.items():
         if len(variants) > 1 and not all_close(list(variants)):
-            shape, inputs, cell = json.loads(key)
+            shape, inputs, cell = json.loads(key[7:] if key.startswith('custom:') else key)[:3]
             obs = {k: v for k, v in list(variants.items())[:3]}
             run.disagree('schedule', {'shape': shape, 'inputs_set': inputs, 'cell': cell, 'schedules': list(obs.values())},
                          'one response for one content', [json.loads(k) for k in obs],
